@@ -203,6 +203,11 @@ def run_scheme(ci, rel, cls, cfg):
 
 
 def main(chk):
+    chk.explanation = ('Each obligation is one (scheme, constructed class, role, side) construction site - or one missing name at such a site - evaluated over every '
+                       'configuration the scheme\'s own set-up code distinguishes: the d_*/s_* hook arguments of the class must be properties or constants the '
+                       'role\'s array has after setup_properties on plain arrays; plus one obligation per scheme that its set-up code completes.  Requirements and '
+                       'provisions are both computed by interpreting the scheme\'s syntax trees, so an option that adds an equation in get_equations without '
+                       'adding its properties in setup_properties shows up for exactly the combinations that need it.')
     ci = EI.index()
     schemes = scheme_classes(ci)
     chk.floor('Scheme subclasses', len(schemes), 17)
